@@ -27,6 +27,8 @@ RULE = (
 ASSUMPTIONS = [
     'scipp.to_unit multiplies by the unit ratio rounded to double (relative error <= 2^-51): a stored float32 may be the '
     'other neighbour only when the exact product lies within 2^-50 (relative) of the rounding boundary; such cases are counted',
+    'where scipp itself uses a less accurate factor for a pair of units (measured at run time: J -> eV is off by '
+    '3.8e-14) the tolerance for that row is widened by twice that error',
     'pixel values are finite, non-NaN and no negative zero; |value| < 2^53 for the integer rows',
     'every string, array and count fits its on-disk field (u32 lengths); strings may hold any UTF-8 text',
     'experiment vectors u, v and the source frequency are written as supplied without unit conversion',
